@@ -373,6 +373,11 @@ def release(ctx, prog, hier):
                            detail="" if p2 is None else "path " + fa.fmt_path(p2), func=f.qualname, key=f"C14-D4/STATE|{f.qualname}|{var}|broadcast-or-release")
     ctx.floor("C14-D4/STATE", "functions that release a transaction", n, 10)
     owners(ctx, prog)
+    # reservations live in the database; ALL of them are dropped in exactly two places: at start-up (nothing can be in flight in a fresh process) and on
+    # the user's explicit utxo_release command.  Anywhere else — a reconnect handler, a periodic task — it frees outputs that unbroadcast builds still hold.
+    R.callers_only(ctx, "C14-D4/CALLERS", "release_all_outputs", ["lbry.wallet.ledger.Ledger.start", "lbry.wallet.account.Account.release_all_outputs",
+                                                                  "lbry.extras.daemon.daemon.Daemon.jsonrpc_utxo_release"],
+                   "blanket release of every reservation", floor=3, module_prefix="lbry", ignore_modules=("lbry.wallet.server", "lbry.wallet.orchstr8", "lbry.testcase"))
     # a held output must keep its is_reserved mark while wallet sync re-saves the transaction that created it: txo rows are inserted with
     # ignore_duplicate, never replaced (a REPLACE writes the column default 0 back)
     n = 0
